@@ -54,6 +54,8 @@ type File struct {
 	Header []string
 	Rows   [][]string
 	BOM    bool
+	// QuotedHeader: every header cell is written inside double quotes (a legal CSV presentation)
+	QuotedHeader bool
 }
 
 func Archive(files []File) []byte
